@@ -42,6 +42,8 @@ def compare(models, results, truths):
                     cls = "microlp-unbounded-with-free-variable"
                 if name == "clarabel" and verdict[0] == "opt" and truth == "Unbounded" and abs(verdict[1]) >= 1e12:
                     cls = "clarabel-solved-with-astronomic-values-on-unbounded-model"
+                if name in ("milp", "auto", "microlp_real") and verdict[0] == "Infeasible" and truth == "opt" and has_free:
+                    cls = "microlp-infeasible-with-free-variable"
                 if name == "slow_simplex" and verdict[0] == "opt" and truth == "Infeasible" and 0.0 < S.max_violation(m, r)[0] <= 1.5e-5:
                     cls = "tableau-feasibility-tolerance-1e-5"
                 yield {"kind": "wrong-verdict", "solver": name, "reported": verdict[0], "certified": truth, "certified_value": str(tval) if tval is not None else None,
